@@ -63,6 +63,17 @@ def effectiveMaxRep (arg : Option Int) (dflt : Int) : Int :=
   | some m => if m = 0 then dflt else m
   | none => dflt
 
+/-! ## the async client's receive loop (`SnmpSession._recv`) -/
+
+/-- `_recv(receiver)`: every time the socket becomes readable `receiver()` (a `recv_*` of the non-blocking
+socket) is called; `BlockingIOError` (nothing matching in the queue yet) means "wait for the next
+wake-up", anything else ends the call; `wait_for` turns the deadline into `TimeoutError`.
+`attempts` = the outcomes of the successive `receiver()` calls that happen before the deadline. -/
+def asyncRecv : List PyOut → PyOut
+  | [] => .raise .TimeoutError
+  | .raise .BlockingIOError :: rest => asyncRecv rest
+  | r :: _ => r
+
 /-! ## `refresh()` of the sync and async clients (SNMPv3 engine discovery / time synchronisation) -/
 
 /-- the part of `SnmpSession` that `refresh()` reads and writes -/
